@@ -141,6 +141,36 @@ fn scenario(name: &str, n: i64) {
                 assert!(r.0.len() >= n as usize);
                 return;
             }
+            if order == "hub" {
+                // n thin triangles meeting only in the origin (all to the left of it) and one to the right, united with a
+                // small square inside their bounding box: one result vertex of degree 2n + 2
+                let tri = |a: (f64, f64), b: (f64, f64), c: (f64, f64)| {
+                    Polygon::new(
+                        LineString(vec![
+                            Coord { x: a.0, y: a.1 },
+                            Coord { x: b.0, y: b.1 },
+                            Coord { x: c.0, y: c.1 },
+                            Coord { x: a.0, y: a.1 },
+                        ]),
+                        vec![],
+                    )
+                };
+                let m = 1024.0;
+                let mut parts: Vec<Polygon<f64>> = (0..n)
+                    .map(|k| {
+                        let y0 = (2 * k - n) as f64;
+                        tri((0.0, 0.0), (-m, y0), (-m, y0 + 1.0))
+                    })
+                    .collect();
+                parts.push(tri((0.0, 0.0), (m, -1.0), (m, 1.0)));
+                let a = MultiPolygon(parts);
+                let b = MultiPolygon(vec![rect(1.0, 10.0, 2.0, 11.0)]);
+                let r = a.union(&b);
+                assert!(r.0.len() == n as usize + 2);
+                let r2 = a.xor(&b);
+                assert!(r2.0.len() == n as usize + 2);
+                return;
+            }
             if order == "intdesc" || order == "intmix" {
                 // staggered left ends: every new segment enters the status BELOW all the others ("intdesc") or alternately
                 // below and above ("intmix"); the clipping box ends before the rectangles do, so the sweep stops early
